@@ -2,15 +2,16 @@
   CV.GenStruct — port of the code generator for the declared fragment, stage 2: structured
   control flow over the statements of stage 1 (CV.GenFlat):
       if (c) S      if (c) S else S      while (c) S      do S while (c);      for (F; c; F) S
-      { S ... }     c ::= a ⋈ b  |  v  |  !v        ⋈ ∈ == != < >= > <=     (a, b atoms, unsigned char)
+      { S ... }     c ::= a ⋈ b  |  v  |  !v  |  c && c  |  c || c  |  !(c)      ⋈ ∈ == != < >= > <=     (a, b atoms, unsigned char)
   What is ported (generate_conditions.rs, generate_statements.rs, at -O0):
     * generate_if / generate_while / generate_do_while / generate_for_loop: label allocation from the
       per-kind counters and the order of the pieces;
     * generate_condition / generate_condition_ex / generate_branch_instruction for 8-bit operands:
-      operand switch, negation and mirroring of the operator, the `.ifhere` detour of `>`;
+      operand switch, negation and mirroring of the operator, the `.ifhere` detour of `>`; short-circuit
+      `&&` / `||` with their `.ifstart` labels (named with the counter value *before* the increment);
     * the generator's belief about the processor flags (`FlagsState`): a test against zero of the
       variable the flags describe emits no load (`a = b; if (a)` → `LDA b ; STA a ; BEQ`); labels
-      forget it; `else` restores the belief saved after the condition.
+      forget it; `else` restores the belief saved after the condition when a single test jumps there.
   The port is compared text-for-text (instructions AND labels) with the real -O0 output by the
   C01 check. CV.Props.C01 proves it correct against the 6502 semantics, including the soundness of
   the flag belief, for every program of the fragment.
@@ -26,6 +27,9 @@ inductive Cond where
   | cmp (op : COp) (a b : Atom)
   | truth (v : String)          -- `if (v)`
   | nottruth (v : String)       -- `if (!v)`
+  | and (a b : Cond)            -- `a && b`
+  | or (a b : Cond)             -- `a || b`
+  | not (c : Cond)              -- `!(c)`
   deriving Repr, DecidableEq, Inhabited
 
 inductive SStmt where
@@ -42,7 +46,7 @@ inductive SStmt where
 /-! ### labels -/
 
 inductive LKind where
-  | ifend | else_ | ifhere | while_ | whileend | dowhile | dowhileend | for_ | forupdate | forend
+  | ifend | else_ | ifhere | ifstart | while_ | whileend | dowhile | dowhileend | for_ | forupdate | forend
   deriving Repr, DecidableEq, Inhabited
 
 /-- which of the generator's three counters names a label of this kind -/
@@ -50,12 +54,12 @@ inductive Ctr where | cIf | cWhile | cFor
   deriving Repr, DecidableEq, Inhabited
 
 def LKind.ctr : LKind → Ctr
-  | .ifend | .else_ | .ifhere => .cIf
+  | .ifend | .else_ | .ifhere | .ifstart => .cIf
   | .while_ | .whileend | .dowhile | .dowhileend => .cWhile
   | .for_ | .forupdate | .forend => .cFor
 
 def LKind.text : LKind → String
-  | .ifend => ".ifend" | .else_ => ".else" | .ifhere => ".ifhere"
+  | .ifend => ".ifend" | .else_ => ".else" | .ifhere => ".ifhere" | .ifstart => ".ifstart"
   | .while_ => ".while" | .whileend => ".whileend" | .dowhile => ".dowhile" | .dowhileend => ".dowhileend"
   | .for_ => ".for" | .forupdate => ".forupdate" | .forend => ".forend"
 
@@ -65,6 +69,14 @@ structure Lbl where
   deriving Repr, DecidableEq, Inhabited
 
 def Lbl.text (l : Lbl) : String := l.kind.text ++ toString l.n
+
+/-- position of a label in the allocation order of its counter: every kind is named with the counter's
+    value *after* the increment, except `.ifstart`, which `generate_condition` names with the value
+    *before* it (`format!(".ifstart{}", counter); counter += 1`) -/
+def Lbl.idx (l : Lbl) : Nat :=
+  match l.kind with
+  | .ifstart => l.n + 1
+  | _ => l.n
 
 /-- one emitted line -/
 inductive GLine where
@@ -148,12 +160,39 @@ def genCondEx (g : GState) (l r : Atom) (op : COp) (negate : Bool) (label : Lbl)
     if Atom.isZero right then zeroTest g v (finalOp op negate switch) label
     else cmpTest g v right (finalOp op negate switch) label
 
-/-- `generate_condition`: jump to `label` iff `c ≠ negate`; `if (v)` is `v != 0`, `if (!v)` is `v == 0` -/
-def genCond (g : GState) (c : Cond) (negate : Bool) (label : Lbl) : List GLine × GState :=
-  match c with
-  | .cmp op a b => genCondEx g a b op negate label
-  | .truth v => zeroTest g v (finalOp .ne negate false) label
-  | .nottruth v => zeroTest g v (finalOp .eq negate false) label
+/-- `generate_condition`: jump to `label` iff `c ≠ negate`; `if (v)` is `v != 0`, `if (!v)` is `v == 0`;
+    `&&` / `||` evaluate left to right and stop early: in the direction where the first operand cannot
+    decide alone they jump over the second test to an `.ifstart` label placed behind it -/
+def genCond (g : GState) : Cond → Bool → Lbl → List GLine × GState
+  | .cmp op a b, negate, label => genCondEx g a b op negate label
+  | .truth v, negate, label => zeroTest g v (finalOp .ne negate false) label
+  | .nottruth v, negate, label => zeroTest g v (finalOp .eq negate false) label
+  | .not c, negate, label => genCond g c (!negate) label
+  | .and a b, true, label =>
+    let r1 := genCond g a true label
+    let r2 := genCond r1.2 b true label
+    (r1.1 ++ r2.1, r2.2)
+  | .and a b, false, label =>
+    let st : Lbl := ⟨.ifstart, g.cIf⟩
+    let r1 := genCond { g with cIf := g.cIf + 1 } a true st
+    let r2 := genCond r1.2 b false label
+    (r1.1 ++ r2.1 ++ [.lab st], { r2.2 with flags := none })
+  | .or a b, true, label =>
+    let st : Lbl := ⟨.ifstart, g.cIf⟩
+    let r1 := genCond { g with cIf := g.cIf + 1 } a false st
+    let r2 := genCond r1.2 b true label
+    (r1.1 ++ r2.1 ++ [.lab st], { r2.2 with flags := none })
+  | .or a b, false, label =>
+    let r1 := genCond g a false label
+    let r2 := genCond r1.2 b false label
+    (r1.1 ++ r2.1, r2.2)
+
+/-- does a single test jump to the target label? (`has_single_exit` of generate_if: only then is the flag
+    belief after the condition also true at the target) -/
+def Cond.singleExit : Cond → Bool
+  | .and _ _ | .or _ _ => false
+  | .not c => c.singleExit
+  | _ => true
 
 /-! ### statements -/
 
@@ -182,7 +221,7 @@ def gen (g : GState) : SStmt → List GLine × GState
     let els : Lbl := ⟨.else_, g0.cIf⟩
     let (cc, g1) := genCond g0 c true els
     let (ct, g2) := gen g1 t
-    let (ce, g3) := gen { g2 with flags := g1.flags } e
+    let (ce, g3) := gen { g2 with flags := if c.singleExit then g1.flags else none } e
     (cc ++ ct ++ [.jmp ifend, .lab els] ++ ce ++ [.lab ifend], { g3 with flags := none })
   | .while c b =>
     let g0 := { g with cWhile := g.cWhile + 1, flags := none }
@@ -214,6 +253,9 @@ def gen (g : GState) : SStmt → List GLine × GState
 
 def CondOK : Cond → Bool
   | .cmp op a b => !(a.isConst && b.isConst) && !(op.ordered && (Atom.isZero a || Atom.isZero b))
+  | .and a b => CondOK a && CondOK b
+  | .or a b => CondOK a && CondOK b
+  | .not c => CondOK c
   | _ => true
 
 def SInFragment : SStmt → Bool
@@ -249,6 +291,9 @@ def evalCond (L : Layout) (m : Mem) : Cond → Bool
   | .cmp op a b => op.eval (val L m a) (val L m b)
   | .truth v => m.read (L v) != 0
   | .nottruth v => m.read (L v) == 0
+  | .and a b => evalCond L m a && evalCond L m b
+  | .or a b => evalCond L m a || evalCond L m b
+  | .not c => !evalCond L m c
 
 /-- big-step meaning of a statement; `none` = not finished within the fuel -/
 def sem (L : Layout) : Nat → Mem → SStmt → Option Mem
